@@ -9,10 +9,13 @@ for t, k in combos():
     HARNESSES.append(typed(H, 'enc_%s_%s' % (t, k), 'typed/enc_exact.c', t, k, tiers=tiers, defines=hb, bounds=('|v| < 2^23 (unconstrained-length UPER integer)' if hb else ''),
                            functions=['%s codec on %s' % (k, t)], inputs='abstract value of %s (all fields symbolic)' % t))
 
-# semi-constrained / unconstrained UPER integers at type level, value range bounded (decoding them is too costly, encoding is not)
-for t in ('T_IntSemi',):
-    HARNESSES.append(typed(H, 'enc_%s_uper' % t, 'typed/enc_exact.c', t, 'uper', defines=['-DINT_HARNESS_BOUND=300LL'], bounds='|v| <= 300', maxdeepen=2400,
-                           functions=['uper codec on %s' % t], inputs='abstract value of %s, |v| <= 300' % t))
+# semi-constrained UPER integer at type level (X.691 10.7), value range bounded hard: the query takes ~20 minutes even
+# for v <= 300 (value-dependent bit offsets plus the heap INTEGER_t temporary of NativeInteger_encode_uper), so it is
+# thorough-only. It carries the known finding KF-UPER-SEMICONSTRAINED-TWOS-COMPLEMENT.
+HARNESSES.append(typed(H, 'enc_T_IntSemi_uper', 'typed/enc_exact.c', 'T_IntSemi', 'uper', tiers=('thorough',),
+                       defines=['-DINT_HARNESS_BOUND=300LL'], bounds='0 <= v <= 300', maxdeepen=2400, timeout=2400,
+                       functions=['NativeInteger_encode_uper / INTEGER_encode_uper on T-IntSemi ::= INTEGER (0..MAX)'],
+                       inputs='abstract value of T_IntSemi, 0 <= v <= 300'))
 
 # Layer K: UPER building blocks with all arguments symbolic (covers the variable-length parts that are
 # too costly at type level)
